@@ -259,6 +259,7 @@ def c11(rec, tier):
     f4_iter.run_utf8(rec, F)
     f4_gc.growth_progress(rec, F)
     f4_iter.run_error_not_dropped(rec, F)
+    f9_casts.run_bounds_checks(rec, F)
     # maps key by Value == and hash; lists relocate
     f10_parity.run_number_equality(rec, F, "unboxed")
     f10_parity.run_forwarded_writes(rec, F)
@@ -284,6 +285,7 @@ def c16(rec, tier):
     f4_gc.growth_progress(rec, F)
     f8_hazards.run(rec, F)
     f4_exc.run_native_env(rec, F, S)
+    f9_casts.run_bounds_checks(rec, F)
     # sentinel tests (x == VALUE_UNDEFINED) guard host panics
     f10_parity.run_number_equality(rec, F, "unboxed")
     f4_sched.queue_once(rec, F)
